@@ -598,6 +598,16 @@ impl Net {
                     std::thread::sleep(Duration::from_millis(2));
                 }
             }
+            ["np.park", point, nth] => {
+                crate::conc::install(None);
+                crate::conc::park_plan("*", point, nth.parse().ok()?);
+                Some("ok".into())
+            }
+            ["np.wait", ms] => Some(crate::conc::wait_parked("*", ms.parse().ok()?)),
+            ["np.release"] => {
+                crate::conc::release("*");
+                Some("ok".into())
+            }
             ["sleep", ms] => {
                 std::thread::sleep(Duration::from_millis(ms.parse().ok()?));
                 Some("ok".into())
